@@ -1,4 +1,4 @@
 #!/bin/bash
 # usage: tools/confirm_queue.sh C04 C06 ...   (waits for a running confirmation, then confirms A and B of each id)
 while pgrep -f confirm_seed.sh >/dev/null; do sleep 10; done
-for id in "$@"; do for x in A B; do [ -f /tmp/wt/$id.out/$x.patch.diff ] && /verif/tools/confirm_seed.sh $id $x; done; done >> /tmp/wt/confirm.log 2>&1
+for id in "$@"; do for x in A B C; do [ -f /tmp/wt/$id.out/$x.patch.diff ] && /verif/tools/confirm_seed.sh $id $x; done; done >> /tmp/wt/confirm.log 2>&1
